@@ -17,7 +17,8 @@ CONSTANTS N,        \* number of addons
           PktB,     \* behaviours of the packet-level hook (handle_proxied_packet)
           UdpB,     \* behaviours of the message-level hook (handle_lludp_message)
           SubB,     \* behaviours of the session / region subscribers
-          Kinds     \* "plain" | "cmdchat" (viewer chat on the proxy's command channel)
+          RlvB,     \* behaviours of the RLV command hook (handle_rlv_command)
+          Kinds     \* "plain" | "cmdchat" (viewer chat on the proxy's command channel) | "rlv" (owner-say "@cmd=param")
 
 VARIABLES cfg,      \* [dir, rel, kind, pkt, udp, sess, reg]
           pc,       \* <<"pkt", i>> | <<"sess">> | <<"reg">> | <<"udp", i>> | <<"tail">> | <<"done">>
@@ -34,9 +35,11 @@ VARIABLES cfg,      \* [dir, rel, kind, pkt, udp, sess, reg]
 vars == <<cfg, pc, own, wire, mutated, copies, dropAcks, invoked, refused, handled, logged>>
 
 Configs == [dir : {"OUT", "IN"}, rel : BOOLEAN, kind : Kinds,
-            pkt : [1..N -> PktB], udp : [1..N -> UdpB], sess : SubB, reg : SubB]
+            pkt : [1..N -> PktB], udp : [1..N -> UdpB], rlv : [1..N -> RlvB], sess : SubB, reg : SubB]
 
-Init == /\ cfg \in {c \in Configs : c.kind = "cmdchat" => c.dir = "OUT"}
+Init == /\ cfg \in {c \in Configs : /\ (c.kind = "cmdchat" => c.dir = "OUT")
+                                   /\ (c.kind = "rlv" => c.dir = "IN")
+                                   /\ (c.kind # "rlv" => \A i \in 1..N : c.rlv[i] = "falsy")}
         /\ pc = <<"pkt", 1>> /\ own = "fresh" /\ wire = 0 /\ mutated = FALSE /\ copies = 0
         /\ dropAcks = 0 /\ invoked = {} /\ refused = 0 /\ handled = FALSE /\ logged = FALSE
 
@@ -111,7 +114,7 @@ RegSub ==
     /\ pc = <<"reg">>
     /\ Run(cfg.reg)
     /\ invoked' = IF cfg.reg \in {"none", "predraise"} THEN invoked ELSE invoked \cup {<<"reg", 0>>}
-    /\ pc' = IF cfg.kind = "cmdchat" THEN <<"cmd">> ELSE <<"udp", 1>>
+    /\ pc' = IF cfg.kind = "cmdchat" THEN <<"cmd">> ELSE IF cfg.kind = "rlv" THEN <<"rlv", 1>> ELSE <<"udp", 1>>
     /\ UNCHANGED <<cfg, handled, logged>>
 
 \* the proxy's own command channel claims the chat line: dropped, never shown to addons
@@ -121,6 +124,18 @@ Command ==
     /\ handled' = TRUE
     /\ pc' = <<"tail">>
     /\ UNCHANGED <<cfg, invoked, logged>>
+
+\* An RLV command in owner chat is offered to the addons' handle_rlv_command hooks; the first addon that
+\* handles it makes the proxy drop the chat line (all its commands were handled) and claims the message;
+\* otherwise the message goes on to the message-level hooks like any other.
+RlvHook(i) ==
+    /\ pc = <<"rlv", i>>
+    /\ invoked' = invoked \cup {<<"rlv", i>>}
+    /\ IF cfg.rlv[i] = "truthy"
+       THEN Run("drop") /\ handled' = TRUE /\ pc' = <<"tail">>
+       ELSE /\ pc' = IF i < N THEN <<"rlv", i + 1>> ELSE <<"udp", 1>>
+            /\ UNCHANGED <<own, wire, dropAcks, refused, copies, mutated, handled>>
+    /\ UNCHANGED <<cfg, logged>>
 
 \* AddonManager.handle_lludp_message: message-level hooks; the first truthy return stops the chain
 UdpHook(i) ==
@@ -142,7 +157,7 @@ Tail_ ==
     /\ pc' = <<"done">>
     /\ UNCHANGED <<cfg, mutated, copies, invoked, handled>>
 
-Next == \/ \E i \in 1..N : PktHook(i) \/ UdpHook(i)
+Next == \/ \E i \in 1..N : PktHook(i) \/ UdpHook(i) \/ RlvHook(i)
         \/ SessSub \/ RegSub \/ Command \/ Tail_
 Spec == Init /\ [][Next]_vars
 
@@ -151,6 +166,7 @@ Done == pc = <<"done">>
 PktClaimed == \E i \in 1..N : <<"pkt", i>> \in invoked /\ cfg.pkt[i] = "truthy"
 Behaviours == {cfg.sess, cfg.reg} \cup {cfg.udp[i] : i \in {i \in 1..N : <<"udp", i>> \in invoked}}
 Claimed == \/ PktClaimed \/ handled \/ cfg.kind = "cmdchat"
+           \/ (cfg.kind = "rlv" /\ \E i \in 1..N : <<"rlv", i>> \in invoked /\ cfg.rlv[i] = "truthy")
            \/ \E b \in Behaviours : \E j \in DOMAIN Ops(b).ops : Ops(b).ops[j] \in {"take", "drop", "send"}
 
 AtMostOnce == wire <= 1
@@ -163,6 +179,8 @@ NoResurrection == /\ own = "dropped" => wire = 0
 \* every packet hook up to the first truthy one ran, every message hook up to the first truthy one ran
 Isolation == Done =>
     /\ \A i \in 1..N : (\A j \in 1..(i - 1) : cfg.pkt[j] # "truthy") => <<"pkt", i>> \in invoked
+    /\ (~PktClaimed /\ cfg.kind = "rlv") =>
+          \A i \in 1..N : (\A j \in 1..(i - 1) : cfg.rlv[j] # "truthy") => <<"rlv", i>> \in invoked
     /\ (~PktClaimed /\ cfg.kind = "plain") =>
           \A i \in 1..N : (\A j \in 1..(i - 1) : ~Ops(cfg.udp[j]).ret) => <<"udp", i>> \in invoked
 Bookkeeping == (Done /\ ~PktClaimed) => logged
